@@ -36,6 +36,7 @@ def mutants(prog):
         ("transform_vectors cube scale", G, "Grid.transform_vectors", "scales = self.size_tensor() / 2", "scales = (self.size_tensor() - 1) / 2", "T10x."),
         ("transform: internal float size", G, "Grid.transform", "half_size = 0.5 * self.size_tensor()", "half_size = 0.5 * self._size", "fractional-size"),
         ("flow sample: GRID vectors not re-expressed", D, "FlowFields.sample", "if axes != Axes.WORLD:", "if axes in (Axes.CUBE, Axes.CUBE_CORNERS):", "T10x.sample"),
+        ("FlowField: default axes from the library-wide flag", D, "FlowField.__init__", "axes = Axes.from_grid(self._grid)", "axes = Axes.from_arg(None)", "T10x.default-axes"),
     ]
     for name, mod, fn, old, new, expect in specs:
         ov = source_sub(prog, mod, fn, old, new)
